@@ -498,7 +498,7 @@ func runC11(a *args) error {
 			for k := 0; k < 24; k++ {
 				absent = append(absent, uuidFrom(r))
 			}
-			for _, phase := range []string{"A", "B", "C"} {
+			for _, phase := range []string{"A", "B", "U", "C", "D"} {
 				before := map[uuid.UUID]bool{}
 				for _, id := range append(append([]uuid.UUID(nil), ids...), absent...) {
 					before[id] = stored(id)
@@ -514,13 +514,22 @@ func runC11(a *args) error {
 				var errs map[uuid.UUID]error
 				var err error
 				batch := items
-				if phase == "C" {
+				switch phase {
+				case "C":
 					batch = nil
 					for _, id := range append(append([]uuid.UUID(nil), ids...), absent...) {
 						batch = append(batch, &pb.BatchItem{Id: id.Bytes()})
 					}
 					errs, err = ds.BatchRemove(ctx, batch)
-				} else {
+				case "U", "D":
+					// U: update what is stored together with ids that are not (those must be reported); D: after the
+					// removal nothing is stored any more - every id must be reported
+					batch = nil
+					for _, id := range append(append([]uuid.UUID(nil), ids...), absent...) {
+						batch = append(batch, &pb.BatchItem{Id: id.Bytes(), Value: []float32{42, float32(round)}})
+					}
+					errs, err = ds.BatchUpdate(ctx, batch)
+				default:
 					errs, err = ds.BatchInsert(ctx, batch)
 				}
 				cancel()
@@ -543,9 +552,14 @@ func runC11(a *args) error {
 					reported := errs[id] != nil
 					now := stored(id)
 					var applied bool // did this call's item take effect?
-					if phase == "C" {
+					switch phase {
+					case "C":
 						applied = before[id] && !now
-					} else {
+					case "U", "D":
+						o, p := ownerOf(id)
+						v, e := c4.nodes[o].datasets[dsid4].VerifIndex(p).Get(id)
+						applied = before[id] && e == nil && len(v) == 2 && v[0] == 42
+					default:
 						applied = !before[id] && now
 					}
 					if !reported && !applied {
